@@ -4,7 +4,6 @@ import (
 	"fmt"
 	"os"
 	"reflect"
-	"runtime"
 	"strings"
 	"testing"
 	"unsafe"
@@ -31,37 +30,6 @@ var (
 	zzC10Funcs = map[string]uintptr{}
 )
 
-func c10Unesc(s string) string {
-	if !strings.Contains(s, "%") {
-		return s
-	}
-	var b strings.Builder
-	for i := 0; i < len(s); i++ {
-		if s[i] == '%' && i+2 < len(s) {
-			var v byte
-			fmt.Sscanf(s[i+1:i+3], "%02x", &v)
-			b.WriteByte(v)
-			i += 2
-		} else {
-			b.WriteByte(s[i])
-		}
-	}
-	return b.String()
-}
-
-func c10Esc(s string) string {
-	var b strings.Builder
-	for i := 0; i < len(s); i++ {
-		c := s[i]
-		if c < 0x21 || c > 0x7e || c == '%' || c == '@' {
-			fmt.Fprintf(&b, "%%%02x", c)
-		} else {
-			b.WriteByte(c)
-		}
-	}
-	return b.String()
-}
-
 func c10ErrClass(err error) string {
 	m := err.Error()
 	switch {
@@ -78,61 +46,6 @@ func c10ErrClass(err error) string {
 	return "err:read"
 }
 
-// c10PrintName is runtime.funcNameForPrint (traceback.go): the runtime reports generic instances with their type
-// arguments replaced by "...", so that is the finest name comparison the runtime's own table allows for them.
-func c10PrintName(name string) string {
-	i := strings.IndexByte(name, '[')
-	j := strings.LastIndexByte(name, ']')
-	if i < 0 || j <= i {
-		return name
-	}
-	return name[:i] + "[...]" + name[j+1:]
-}
-
-// c10FuncTruth asks the runtime which function starts at pc.
-func c10FuncTruth(name string, pc uintptr) string {
-	if pc == 0 || pc+1 == 0 {
-		return "rt:none"
-	}
-	frames := runtime.CallersFrames([]uintptr{pc + 1})
-	var last runtime.Frame
-	n := 0
-	for {
-		fr, more := frames.Next()
-		if fr.PC != 0 || fr.Function != "" {
-			last = fr
-			n++
-		}
-		if !more {
-			break
-		}
-	}
-	if n == 0 {
-		return "rt:none"
-	}
-	if last.Function == "" {
-		// runtime quirk (symtab.go funcName): the function whose name sits at offset 0 of the name table is reported
-		// nameless (the first function of the text segment in practice); only its entry can be compared
-		if last.Entry == pc {
-			return "entry-only"
-		}
-		return fmt.Sprintf("rt:@%#x", last.Entry)
-	}
-	res := "exact"
-	if last.Entry != pc || last.Function != c10PrintName(name) {
-		res = fmt.Sprintf("rt:%s@%#x", c10Esc(last.Function), last.Entry)
-	}
-	if want, ok := zzC10Funcs[name]; ok {
-		if want == pc && res == "exact" {
-			return "exact+ptr"
-		}
-		if want != pc {
-			return fmt.Sprintf("%s,ptr=%#x", res, want)
-		}
-	}
-	return res
-}
-
 func c10VarTruth(name string, addr uintptr) string {
 	if want, ok := zzC10Vars[name]; ok {
 		if uintptr(want) == addr {
@@ -141,7 +54,7 @@ func c10VarTruth(name string, addr uintptr) string {
 		return fmt.Sprintf("ptr=%#x", uintptr(want))
 	}
 	// a text symbol looked up through the ELF symbol table: the runtime's function table is the truth
-	if t := c10FuncTruth(name, addr); t == "exact" || t == "exact+ptr" {
+	if t := vh.FuncTruth(name, addr, zzC10Funcs); t == "exact" || t == "exact+ptr" {
 		return "exact-func"
 	}
 	return "unk"
@@ -156,7 +69,7 @@ func c10Query(q string) (obs, rt string) {
 	if len(q) < 2 || q[1] != ':' {
 		return "bad-query", "-"
 	}
-	name := c10Unesc(q[2:])
+	name := vh.SymUnesc(q[2:])
 	switch q[0] {
 	case 'f':
 		a, err := FindFuncByName(name)
@@ -166,7 +79,7 @@ func c10Query(q string) (obs, rt string) {
 			}
 			return c10ErrClass(err), "-"
 		}
-		return fmt.Sprintf("ok:%#x", a), c10FuncTruth(name, a)
+		return fmt.Sprintf("ok:%#x", a), vh.FuncTruth(name, a, zzC10Funcs)
 	case 'v':
 		a, err := FindVarByName(name)
 		if err != nil {
@@ -185,7 +98,7 @@ func c10Query(q string) (obs, rt string) {
 			return c10ErrClass(err), "-"
 		}
 		a := reflect.ValueOf(fn).Pointer()
-		return fmt.Sprintf("ok:%#x", a), c10FuncTruth(name, a)
+		return fmt.Sprintf("ok:%#x", a), vh.FuncTruth(name, a, zzC10Funcs)
 	}
 	return "bad-query", "-"
 }
